@@ -93,6 +93,12 @@ class PathState:
             return self.project(e[1], name)
         if e[0] == 'closure' and name.isdigit() and int(name) < len(e[2]):
             return e[2][int(name)]          # captured variable of a closure built on this path (desugared combinators)
+        if e[0] == 'variant' and name.isdigit():
+            # `(helper(..)? as Continue).0` where the helper was inlined and built Ok(v) on this path: v itself (so that a tuple / struct
+            # returned through `?` can be taken apart by the following projections)
+            p = peel_payload(('field', e, name))
+            if not (p[0] == 'field' and p[1] is e):
+                return p
         return ('field', e, name)
 
     def operand(self, op):
